@@ -120,6 +120,22 @@ func startOnce(bin string, args []string, env []string) (*Process, error) {
 	}
 	addr := fmt.Sprintf("127.0.0.1:%d", port)
 	full := append([]string{"run", "--address", addr}, args...)
+	// no API listener unless the caller asks for one: its fixed default port (10000) may be taken by
+	// another process of this machine (e.g. a second check running at the same time)
+	hasAPI := false
+	for _, a := range args {
+		if a == "--api-address" || strings.HasPrefix(a, "--api-address=") {
+			hasAPI = true
+		}
+	}
+	for _, e := range env {
+		if strings.HasPrefix(e, "FORWARDER_API_ADDRESS=") {
+			hasAPI = true
+		}
+	}
+	if !hasAPI {
+		full = append(full, "--api-address", "")
+	}
 	cmd := exec.Command(bin, full...)
 	cmd.Env = append(os.Environ(), env...)
 	out := &bytes.Buffer{}
